@@ -11,7 +11,7 @@ import (
 	"time"
 )
 
-func writeEvidence(prop, tier string, seed int, results []*harnessResult, loadT, wall time.Duration, nViol int) error {
+func writeEvidence(outDir, prop, tier string, seed int, results []*harnessResult, loadT, wall time.Duration, nViol, natOK, ssaOK int, witT time.Duration) error {
 	type hEv struct {
 		Harness       string            `json:"harness"`
 		Bounds        string            `json:"bounds,omitempty"`
@@ -37,14 +37,20 @@ func writeEvidence(prop, tier string, seed int, results []*harnessResult, loadT,
 		KnownFinding  string            `json:"known_finding,omitempty"`
 		Replay        string            `json:"counterexample_confirmation"`
 		Replays       []replayOutcome   `json:"replays,omitempty"`
+		Complete      int               `json:"complete_paths"`
+		WitSampled    int               `json:"witnesses_sampled"`
+		WitNative     int               `json:"witnesses_agreeing_native_go_test"`
+		WitSSA        int               `json:"witnesses_agreeing_ssa_concrete"`
+		WitMode       string            `json:"witness_validation,omitempty"`
+		WitObstacles  []string          `json:"paths_not_steerable_natively_because,omitempty"`
 	}
 	funcs := map[string]bool{}
 	modelsU := map[string]bool{}
 	assumps := map[string]bool{}
 	var hs []hEv
-	var samples []interface{}
+	var samples, witSamples []interface{}
 	states, trans, obl, dis, nontriv := 0, 0, 0, 0, 0
-	replaysRun := 0
+	replaysRun, replaysNative := 0, 0
 	for _, r := range results {
 		conf := "ssa-concrete + native go test"
 		if r.Cfg.NoNative {
@@ -55,13 +61,40 @@ func writeEvidence(prop, tier string, seed int, results []*harnessResult, loadT,
 			Z3Seconds: r.Z3T.Seconds(), Cvc5Seconds: r.CvcT.Seconds(), MaxQuerySec: r.MaxQ.Seconds(), Fallbacks: r.Fallback, Terms: r.Terms,
 			Wall: r.Wall.Seconds(), Preempt: r.Cfg.Preempt, AssertReached: r.Sites, Overrides: r.Cfg.Overrides, KnownFinding: r.Cfg.Known,
 			Replay: conf, Replays: r.Replays}
+		h.Complete, h.WitSampled = r.Finished, len(r.Witnesses)
+		for _, w := range r.Witnesses {
+			if w.Result == "agree" && w.Mode == "native" {
+				h.WitNative++
+			} else if w.Result == "agree" {
+				h.WitSSA++
+			}
+			if len(witSamples) < 2 && w.Result == "agree" && w.Mode == "native" && len(w.Vector) > 0 {
+				witSamples = append(witSamples, map[string]interface{}{"harness": r.Cfg.Name, "witness_vector": w.Vector, "assertions_evaluated_natively_and_symbolically": len(w.Asserts), "verdict": "native run agrees with the symbolic path"})
+			}
+		}
+		obst := map[string]bool{}
+		for _, w := range r.Witnesses {
+			if w.obstacle != "" {
+				obst[w.obstacle] = true
+			}
+		}
+		h.WitObstacles = sortedKeys(obst)
+		h.WitMode = "native go test"
+		if r.WitnessNote != "" {
+			h.WitMode = "ssa-concrete only: " + r.WitnessNote
+		}
 		hs = append(hs, h)
 		states += r.Paths
 		trans += r.Z3Q + r.CvcQ
 		obl += r.Asserts + r.Trivial
 		dis += r.Discharged + r.Trivial
-		nontriv += r.Discharged + r.PathsAsserting
+		nontriv += r.PathsAsserting
 		replaysRun += len(r.Replays)
+		for _, ro := range r.Replays {
+			if ro.Kind == "native" && ro.Result == "confirmed" {
+				replaysNative++
+			}
+		}
 		for _, f := range r.Funcs {
 			funcs[f] = true
 		}
@@ -77,6 +110,7 @@ func writeEvidence(prop, tier string, seed int, results []*harnessResult, loadT,
 			}
 		}
 	}
+	samples = append(samples, witSamples...)
 	if len(samples) == 0 {
 		samples = append(samples, map[string]string{"note": "no solver-decided obligation on this run (all decided by constant folding or none reached)"})
 	}
@@ -111,11 +145,15 @@ func writeEvidence(prop, tier string, seed int, results []*harnessResult, loadT,
 		"coverage": map[string]interface{}{
 			"states":                                max(states, 0),
 			"transitions":                           trans,
-			"traces_validated_against_impl":         replaysRun,
+			"traces_validated_against_impl":         replaysNative + natOK,
+			"counterexamples_replayed":              replaysRun,
+			"witness_paths_agreeing_native":         natOK,
+			"witness_paths_agreeing_ssa_concrete":   ssaOK,
+			"witness_validation_s":                  witT.Seconds(),
 			"samples":                               samples,
-			"evaluations":                           obl,
+			"evaluations":                           states,
 			"distinct_nontrivial":                   nontriv,
-			"rule":                                  "states = symbolic execution paths explored over the real SSA; transitions = SMT queries issued; evaluations = proof obligations raised (assertions + Go run-time checks); distinct_nontrivial = obligations discharged by a solver verdict of unsat (constant-folded ones are excluded and counted separately per harness); traces_validated_against_impl = solver counterexamples replayed against the real code on this run",
+			"rule":                                  "states = evaluations = symbolic execution paths explored over the real SSA (each has a distinct path condition); distinct_nontrivial = those paths that evaluated at least one harness assertion, i.e. were not cut by an assumption or an earlier run-time check before the property was examined; transitions = SMT queries issued; obligations = assertions + Go run-time checks raised, discharged = those shown to hold (solver verdict unsat, or decided by constant folding once the path's forks fix every operand: counted per harness under decided_by_constant_folding); traces_validated_against_impl = complete symbolic paths (seeded sample per harness, models from the solver) plus counterexamples that were executed natively with go test against /repo's build and behaved exactly as the encoding predicted (same nondets consumed, same assertion sequence, same verdict); paths re-executed on the concrete SSA interpreter only are counted separately and not included",
 			"obligations":                           obl,
 			"discharged":                            dis,
 			"exhaustive":                            false,
@@ -135,7 +173,7 @@ func writeEvidence(prop, tier string, seed int, results []*harnessResult, loadT,
 	if err != nil {
 		return err
 	}
-	dir := filepath.Join(verifDir, "evidence")
+	dir := filepath.Join(outDir, "evidence")
 	os.MkdirAll(dir, 0o755)
 	return os.WriteFile(filepath.Join(dir, prop+".json"), b, 0o644)
 }
